@@ -480,6 +480,11 @@ class _CRTFCoordinateParser:
         Parse a single coordinate.
         """
         # Any CRTF coordinate representation (sexagesimal or degrees)
+        # numbers in exponent notation, e.g., 1.5e-02deg
+        match = re.fullmatch(r'([-+]?[0-9.]+[eE][-+]?[0-9]+)(deg|rad)',
+                             string_rep)
+        if match:
+            return Angle(float(match.group(1)), match.group(2))
         if 'pix' in string_rep:
             return u.Quantity(string_rep[:-3], u.dimensionless_unscaled)
         if 'h' in string_rep or 'rad' in string_rep:
@@ -518,7 +523,8 @@ class _CRTFCoordinateParser:
                         '"': u.arcsec,
                         "'": u.arcmin}
 
-        regex_str = re.compile(r'([0-9+,-.]*)(.*)')
+        # the number can be in exponent notation (e.g., 2.5e-02arcsec)
+        regex_str = re.compile(r'([0-9+,-.]*(?:[eE][-+]?[0-9]+)?)(.*)')
         restr = regex_str.search(string_rep)
         unit = restr.group(2)
         if unit:
